@@ -244,14 +244,41 @@ def Mon.stepOp (m : Mon) (op : Op) (out : String) (evs : List Ev) : Mon × Optio
      else if frames.isEmpty then none else some "unexpected-frame")
   | .burst srcs =>
     ({ m with counter := m.counter + srcs.length, running := m.running && !stopped }, m.checkBurst srcs evs)
+  | .frames _ => (m, none)     -- handled in `Mon.step` (needs the text of the operation)
   | .input frame =>
     let (m1, r1) := m.noteFinds evs
     match r1 with
     | some r => (m1, some r)
     | none => ({ m1 with running := m1.running && !stopped }, m1.checkInput frame evs)
 
+/-- a message sent in fragments with control frames in between must have the effect of the whole text; frames that
+are not a text message (binary, close, fragmentation violations) must be delivered to nobody -/
+def Mon.stepFragmented (m : Mon) (line : String) (evs : List Ev) : Mon × Option String :=
+  let stopped := evs.any fun e => match e with | .task _ => true | _ => false
+  match words line with
+  | ["infrag", f, plan] =>
+    match bytesOfHex f, WsFrames.parsePlan plan with
+    | some bytes, some ts =>
+      if WsFrames.planWellFormed ts then
+        match utf8 bytes with
+        | some frame =>
+          let (m1, r1) := m.noteFinds evs
+          match r1 with
+          | some r => (m1, some r)
+          | none =>
+            ({ m1 with running := m1.running && !stopped },
+             match m1.checkInput frame evs with
+             | some r => if r.startsWith "task-panic" then some r else some "fragmented-envelope-corrupted"
+             | none => if stopped && m1.running && (match peel frame with | .err => false | .panic _ => false | _ => true)
+                       then some "fragmented-envelope-corrupted" else none)
+        | none => ({ m with running := m.running && !stopped }, if evs.any isDeliveryEv then some "invalid-frame-delivered" else none)
+      else ({ m with running := m.running && !stopped }, if evs.any isDeliveryEv then some "invalid-frame-delivered" else none)
+    | _, _ => (m, some "unparsable")
+  | _ => ({ m with running := m.running && !stopped }, if evs.any isDeliveryEv then some "invalid-frame-delivered" else none)
+
 def Mon.step (m : Mon) (line : String) (out : String) : Mon × Option String :=
   match parseOp line, parseOut out with
+  | some (.frames _), some evs => m.stepFragmented line evs
   | some op, some evs => m.stepOp op out evs
   | some (.input _), none => if out == "unsup" then (m, none) else (m, some "unparsable")
   | _, _ => (m, some "unparsable")
